@@ -52,8 +52,19 @@ def run(ctx):
     confirmed(ctx)
 
 
+def stateless(ctx, cname):
+    """Simple majority / minimum approval / ordered approval are functions of the member list alone: a call leaves nothing on the
+    election object (only ConfirmedElection carries waiting periods from call to call)."""
+    tr = call_trace(ctx, cname)
+    w = [e for e in tr.events if e.kind in ("store", "mutate") and len(e.stack) <= 2]
+    ctx.ob("WR", cname + ".__call__", "the election keeps no state between calls", not w,
+           "a call stores self.%s: the verdict for a member list would depend on earlier calls (e.g. on the size of the first list seen)" % (w[0].attr if w else ""), w[0] if w else None)
+
+
 def majority(ctx):
     site = "SimpleMajorityElection.__call__"
+    for cn_ in ("SimpleMajorityElection", "MinimumApprovalElection", "OrderedApprovalElection"):
+        stateless(ctx, cn_)
     tr = call_trace(ctx, "SimpleMajorityElection")
     ctx.ob("RET", site, "returns only 'drift' or None", retset(tr) <= {"drift", None} and "drift" in retset(tr), str(retset(tr)))
     dets = P("detectors")
